@@ -31,7 +31,7 @@ import warnings
 from sim import aioloop as A
 from sim.adata import Events, PrivateAbort, PrivateFault, make_async_data
 from sim.core import Outcome, digest, exc_key
-from sim.envs import CodeMemo
+from sim.envs import AE_MODES, CodeMemo
 from sim.tape import Tape, run_seed
 from sim.workload import Gen
 
@@ -90,7 +90,7 @@ def run(tape: Tape) -> Outcome:
     import jinja2
 
     out = Outcome()
-    ae = bool(tape.draw(2))
+    ae = tape.draw(3)
     lc = bool(tape.draw(2))
     noise = tape.draw(3)
     size = 2 + tape.draw(4)
@@ -108,7 +108,7 @@ def run(tape: Tape) -> Outcome:
     data = make_async_data(tape, events)
     cfg_key = ("c36", ae, lc)
     env = jinja2.Environment(
-        loader=jinja2.DictLoader(P.templates), enable_async=True, autoescape=ae,
+        loader=jinja2.DictLoader(P.templates), enable_async=True, autoescape=AE_MODES[ae],
         extensions=["jinja2.ext.loopcontrols"] if lc else [], bytecode_cache=CodeMemo(cfg_key),
     )
 
